@@ -30,8 +30,13 @@ def oracle(h):
     for e in h.evs:
         ev, o = e["ev"], e["out"]
         if ev.get("nomodel"):
+            if not e.get("stale"):      # e.g. apprelease: the tables can be read again
+                tables = e["tables"]
+                if e.get("nodes") is not None:
+                    nodes = json.dumps(e.get("nodes"), sort_keys=True)
             continue
-        hooks_active = {sc.tokkey(s["Token"]) for s in (tables.get("sessions") or []) if s["Activated"]}
+        stale = bool(e.get("stale"))      # the harness could not read the tables (held by a blocked change notification)
+        hooks_active = {sc.tokkey(s["Token"]) for s in (tables.get("sessions") or []) if s["Activated"]} if not stale else set(active)
         if (hooks_active - active) & closed:
             fails.append(("closed-session-still-in-table", "the session table still holds token(s) %s as activated although the client was "
                           "answered Good to CloseSession" % sorted((hooks_active - active) & closed), e))
@@ -46,7 +51,7 @@ def oracle(h):
                     ev.get("svcname") or ev["kind"], json.dumps(o)[:160]), e))
             elif o["st"] != want:
                 fails.append(("wrong-session-error", "expected 0x%08x, got 0x%08x" % (want, o["st"]), e))
-            if strip(e["tables"]) != strip(tables) or (e.get("nodes") is not None and after_nodes != nodes):
+            if not stale and (strip(e["tables"]) != strip(tables) or (e.get("nodes") is not None and after_nodes != nodes)):
                 fails.append(("effect-without-session/" + ev["kind"], "%s request without an activated session changed the server's state" % ev["kind"], e))
         if ev["kind"] in ("activate", "closesession") and ev["tok"] not in known and o["k"] != "fault":
             fails.append(("session-service-unknown-token", "%s with an unknown token answered %s" % (ev["kind"], o["k"]), e))
@@ -60,9 +65,10 @@ def oracle(h):
             known.discard(ev["tok"])
             active.discard(ev["tok"])
             closed.add(ev["tok"])
-        tables = e["tables"]
-        if e.get("nodes") is not None:
-            nodes = after_nodes
+        if not stale:
+            tables = e["tables"]
+            if e.get("nodes") is not None:
+                nodes = after_nodes
     return fails
 
 
